@@ -16,7 +16,7 @@ func init() {
 
 var profC17 = Profile{
 	MaxBars: 6, MinBars: 2, MaxSteps: 40, Refresh: []string{"manual", "manual", "autoinj"}, QLens: []int{-1, -1, 0, 1},
-	Pop: 25, Queue: 70, Prio: true, Ext: 10, Rm: 25, NoPop: 15, AbortW: 3, TicksW: 10,
+	Pop: 25, Queue: 70, LateSuccW: 3, Prio: true, Ext: 10, Rm: 25, NoPop: 15, AbortW: 3, TicksW: 10,
 	Fillers: []string{"bar", "tag"}, LateAdd: true, Epilogues: []string{"complete", "mixed"}, SyncDecors: 1, PlainDecors: 1, Wraps: true, AddTick: 25,
 }
 
@@ -145,8 +145,8 @@ func runC17(ci interface{}) Result {
 			// its creation
 			for k := range frames {
 				if frames[k].Seq > addSeq[s] && addSeq[s] > 0 {
-					if firstS != k && len(sim.Frames) == len(frames) && !sim.Frames[k].Ambiguous && containsInt(sim.Frames[k].Visible, s) {
-						r.Err, r.Kind = fmt.Errorf("bar %d was created after its predecessor %d had left; the first frame after its creation is frame %d, but it is first displayed in frame %d", s, p, k, firstS), "late-not-at-once"
+					if (firstS < 0 || firstS > k) && len(sim.Frames) == len(frames) && !sim.Frames[k].Ambiguous && containsInt(sim.Frames[k].Visible, s) {
+						r.Err, r.Kind = fmt.Errorf("bar %d was created after its predecessor %d had left; the first frame drawn after its creation returned is frame %d, but it is first displayed in frame %d", s, p, k, firstS), "late-not-at-once"
 						return r
 					}
 					break
